@@ -9,7 +9,12 @@ initial MPS of an admissible charge and drives ``mps.tdvp_`` over a time grid.  
  u = 1j        norm conservation (normalize=False) and energy conservation within a bound derived from the expmv
  Hermitian H   tolerance: (#expmv calls) * C_TOL * tol (+ floor) -- 1site always, 2site/12site with non-binding opts_svd
  full manifold dense psi(t_k) == scipy.linalg.expm(-u (t_k - t_0) H) psi_0 for u in {1j, 1, complex}, every method / order /
-               flag combination (up to a scalar when subtract_E=True), whenever the bond dimensions are maximal
+               flag combination (up to a scalar when subtract_E=True), whenever the bond dimensions are maximal *and* have the
+               structure under which the projector-splitting sweep is exact (vmon.tnref_dt.exactness_premise: every bond left
+               of a switch point is left-complete, every bond right of it right-complete -- always true without symmetries;
+               with symmetries a bond can be left-complete in one charge sector and right-complete in another, the manifold
+               is then still the whole sector but the integrator is only accurate to its order; such cases are counted as
+               maximal_bonds_but_mixed_completeness and not judged by this clause)
  H(t)          bounded convergence-order restatement at maximal bond dimension: errors at dt, dt/2, dt/4 against a
                fine-step 4th-order Magnus propagator shrink by >= 2^(p-0.5) while above the noise floor (else inconclusive)
 
@@ -38,7 +43,10 @@ ASSUMPTIONS = ["scipy.linalg.expm / dense matrix-vector products on <= 4096-dime
                "skipped and counted)",
                "MpsMpoOBC.to_tensor + Tensor.to_numpy(legs=...) are observation functions (cross-validated by C01/C06)",
                "expmv delivers its documented tolerance per call; the conservation bound is (#calls) * 2 * tol + 1e-12",
-               "time-dependent reference: 4th-order Gauss-Legendre Magnus propagator with 400 steps per interval"]
+               "time-dependent reference: 4th-order Gauss-Legendre Magnus propagator with 400 steps per interval",
+               "exactness at maximal bond dimension is demanded only under the one-sided-completeness premise (see module "
+               "docstring); it is a theorem there and only an O(dt^p) approximation otherwise",
+               "a single expmv call needing more than 3 s of CPU time on tensors of < 1000 elements is a hang"]
 
 C_TOL = 2.0        # allowed error per expmv call, in units of its tol
 FLOOR = 1e-12
@@ -84,12 +92,12 @@ class ExpmvStall(Exception):
     pass
 
 
-GUARD = {"installed": False, "seconds": 2.5}
+GUARD = {"installed": False, "seconds": 3.0}        # CPU seconds (ITIMER_VIRTUAL): immune to a loaded machine
 
 
 def install_expmv_guard():
     """tdvp_ calls yastn.tn.mps._tdvp.expmv once per local update (milliseconds for the tensors used here).  A call that
-    does not return within GUARD['seconds'] is interrupted and reported: expmv's adaptive loop can spin forever."""
+    does not return within GUARD['seconds'] of *CPU time* is interrupted and reported: expmv's adaptive loop can spin forever."""
     import signal
     import yastn.tn.mps._tdvp as td
     if GUARD["installed"]:
@@ -114,13 +122,13 @@ def install_expmv_guard():
                     break
                 fr = fr.f_back
             raise ExpmvStall(info)
-        old = signal.signal(signal.SIGALRM, on_alarm)
-        signal.setitimer(signal.ITIMER_REAL, GUARD["seconds"])
+        old = signal.signal(signal.SIGVTALRM, on_alarm)
+        signal.setitimer(signal.ITIMER_VIRTUAL, GUARD["seconds"])
         try:
             return orig(f, v, t, *args, **kwargs)
         finally:
-            signal.setitimer(signal.ITIMER_REAL, 0)
-            signal.signal(signal.SIGALRM, old)
+            signal.setitimer(signal.ITIMER_VIRTUAL, 0)
+            signal.signal(signal.SIGVTALRM, old)
 
     guarded.__wrapped__ = orig
     td.expmv = guarded
@@ -189,7 +197,7 @@ def guarded_iter(ctx, gen, tag, witness, failed):
                     "can then only shrink the time step (or, if the first expansion used a larger user ncv, not even that)")
             else:
                 key, why = "hang:expmv:no-progress", "the adaptive loop makes no progress"
-            failed.append((key, f"{tag}: a single expmv call inside tdvp_ did not return within {GUARD['seconds']} s ({why}); loop state {info}",
+            failed.append((key, f"{tag}: a single expmv call inside tdvp_ did not return within {GUARD['seconds']} s of CPU time ({why}); loop state {info}",
                            dict(witness, expmv=info)))
             failed.append(("__stalled__", "", {}))
             return
@@ -662,6 +670,24 @@ def canaries(ctx):
         mps.tdvp_ = orig
     ks = {v["key"] for v in sub.violations}
     ctx.canary("grid-bookkeeping", {"bookkeeping:tf", "bookkeeping:steps"} <= ks)
+    # watchdog: an expmv call that spins is interrupted (CPU-time timer) and surfaces as ExpmvStall
+    import yastn.tn.mps._tdvp as td
+    install_expmv_guard()
+    psi, ref0 = start()
+    keep = GUARD["seconds"]
+    GUARD["seconds"] = 0.2
+
+    def spin(x):
+        while True:
+            pass
+    try:
+        td.expmv(spin, psi[1], 0.1j)
+        fired = False
+    except ExpmvStall:
+        fired = True
+    finally:
+        GUARD["seconds"] = keep
+    ctx.canary("expmv-watchdog", fired)
     # sector / canonical observation
     sub = fresh()
     psi, ref0 = start()
